@@ -1367,9 +1367,11 @@ def E2_cif_tags(repo, clause):
     # P1 rejection
     rs = [s for s in r.own_nodes() if isinstance(s, ast.Raise)]
     p1 = None
+    _tagv = {lp.target.id for lp in r.own_nodes() if isinstance(lp, ast.For) and isinstance(lp.target, ast.Name) and isinstance(lp.iter, (ast.List, ast.Tuple))
+             and lp.iter.elts and all("H-M" in str(const_value(x_)) for x_ in lp.iter.elts)}
     for s in rs:
         for t, pol, k in norm_guards(r, s):
-            if "H-M" in ast.unparse(t):
+            if "H-M" in ast.unparse(t) or any(("(%s)" % v_) in ast.unparse(t) or ("[%s]" % v_) in ast.unparse(t) for v_ in _tagv):
                 p1 = (s, t, pol)
     ok = False
     sem_p1 = None
@@ -1383,14 +1385,15 @@ def E2_cif_tags(repo, clause):
 
         class _AbsSG(ast.NodeTransformer):
             def visit_Call(self, n):
-                if isinstance(n.func, ast.Attribute) and n.func.attr in ("has_key", "__contains__") and n.args and "H-M" in str(const_value(n.args[0])):
+                if isinstance(n.func, ast.Attribute) and n.func.attr in ("has_key", "__contains__") and n.args and ("H-M" in str(const_value(n.args[0])) or
+                                                                                                                  (isinstance(n.args[0], ast.Name) and n.args[0].id in tag_vars)):
                     return ast.copy_location(ast.Name(id="HAS", ctx=ast.Load()), n)
                 if isinstance(n.func, ast.Attribute) and n.func.attr == "get" and n.args and "H-M" in str(const_value(n.args[0])):
                     return ast.copy_location(ast.Name(id="SGGET", ctx=ast.Load()), n)
                 return self.generic_visit(n)
 
             def visit_Subscript(self, n):
-                if "H-M" in str(const_value(n.slice)):
+                if "H-M" in str(const_value(n.slice)) or (isinstance(n.slice, ast.Name) and n.slice.id in tag_vars):
                     return ast.copy_location(ast.Name(id="SG", ctx=ast.Load()), n)
                 return self.generic_visit(n)
 
@@ -1399,11 +1402,18 @@ def E2_cif_tags(repo, clause):
                     e_ = ast.Name(id="HAS", ctx=ast.Load())
                     return ast.copy_location(e_ if isinstance(n.ops[0], ast.In) else ast.UnaryOp(op=ast.Not(), operand=e_), n)
                 return self.generic_visit(n)
-        gsp = [(_AbsSG().visit(_copy.deepcopy(expand(r, t_))), pol_) for t_, pol_, k_ in norm_guards(r, s) if "H-M" in ast.unparse(expand(r, t_))]
+        # loop variables that run over a literal list of space-group tags: `for tag in ['_symmetry_space_group_name_H-M', '_space_group_name_H-M_alt']`
+        tag_vars = {lp.target.id for lp in r.own_nodes() if isinstance(lp, ast.For) and isinstance(lp.target, ast.Name) and isinstance(lp.iter, (ast.List, ast.Tuple))
+                    and lp.iter.elts and all("H-M" in str(const_value(x_)) for x_ in lp.iter.elts)}
+
+        def _about_sg(t_):
+            tx = ast.unparse(expand(r, t_))
+            return "H-M" in tx or any(("[%s]" % v_) in tx or ("(%s)" % v_) in tx for v_ in tag_vars)
+        gsp = [(_AbsSG().visit(_copy.deepcopy(expand(r, t_))), pol_) for t_, pol_, k_ in norm_guards(r, s) if _about_sg(t_)]
         try:
             bad = []
             for has in (True, False):
-                for sg in ("P1", "P 1", "P 21/c", "Fm-3m"):
+                for sg in ("P1", "P 1", "P 21/c", "Fm-3m", "P -1", "P-1", "P 1 21 1", "P 4/m m m"):
                     env_ = {"HAS": has, "SG": sg, "SGGET": sg if has else None}
                     taken = all(bool(eval_small(t_, env_)) == pol_ for t_, pol_ in gsp)
                     want = has and sg not in ("P1", "P 1")
